@@ -474,6 +474,15 @@ impl GraphTensor {
             return;
         }
 
+        // The deleted set is about to be forgotten: the incoming index must forget the deleted
+        // edges too, or `incoming()` lists them again after the merge.
+        if !deleted.is_empty() {
+            let mut incoming = self.incoming_index.write();
+            for edges in incoming.values_mut() {
+                edges.retain(|(_, edge_id)| !deleted.contains(edge_id));
+            }
+        }
+
         // Collect all edges from CSR
         let mut all_edges: Vec<EdgeEntry> = {
             let csr = self.csr.read();
